@@ -69,7 +69,7 @@ impl World {
                 version: a.version,
                 known: &mut a.known,
                 bb: &bb,
-                allow_garbage: a.plan.abuser,
+                allow_garbage: a.plan.abuser || a.plan.garbage,
                 conformant: a.plan.conformant,
             };
             let msg = r.resolve(op);
@@ -737,6 +737,16 @@ impl World {
             }
         }
 
+        // A connection that died of a failed payload conversion (finding S3) may have lost
+        // anything that was in flight to it, including the Shutdown.
+        for a in &mut self.actors {
+            let res = a.shared.borrow().run_result.clone();
+            if let Some(Err(e)) = res {
+                if !(e.contains("Transport") || e.contains("UnexpectedShutdown")) {
+                    a.lossy_end = true;
+                }
+            }
+        }
         let mut vs: Vec<Violation> = Vec::new();
         for i in 0..self.actors.len() {
             // Shutdown handshake.
